@@ -88,7 +88,9 @@ Section Barrier.
              ((nbrs cs ncs b <> [] -> (List.length (d_nvals s) < nnb cs ncs b)%nat)
               /\ core s = core (G (cyc s) b) /\ d_pok s = [] /\ d_nimps s = [])
              \/ (* improve() raised IndexError: the computation is stuck with a complete view *)
-             (List.length (d_nvals s) = nnb cs ncs b /\ nbrs cs ncs b <> []))
+             (List.length (d_nvals s) = nnb cs ncs b /\ nbrs cs ncs b <> []
+              /\ (* ... and the synchronous improve() of that round raises too *)
+              snd (after_ok cs ncs dom infinity (G (cyc s)) b) = true))
     | ImpM =>
         d_value s = d_value (G (cyc s) b)
         /\ NoDup (d_nimps s) /\ incl (d_nimps s) (nbrs cs ncs b)
